@@ -103,7 +103,12 @@ func (C12) Gen(r *simrt.RNG, tier string) core.Case {
 			if redef >= 0 && r.Chance(2, 3) {
 				op = world.Op{Kind: world.OpCallRedef, Redef: redef, Thread: t}
 			}
-			if op.Kind == world.OpCall && r.Chance(1, 10) {
+			if op.Kind == world.OpCall && r.Chance(1, 10) && len(base) > 1 {
+				// a call that lacks something fails as unsatisfied and renders its report,
+				// while the other threads are in the middle of their calls
+				drop := r.Intn(len(base))
+				op.Args = append(append([]int{}, base[:drop]...), base[drop+1:]...)
+			} else if op.Kind == world.OpCall && r.Chance(1, 10) {
 				// a call with an option that cannot be applied fails on its own; whatever it
 				// had set up by then must not leak into the calls of the other threads
 				w.Args = append(w.Args, world.ArgSpec{Kind: world.ArgNonFunc})
